@@ -3,6 +3,7 @@ import Driver.Rng
 import Driver.Totp
 import Driver.Apache
 import Driver.Digest
+import Driver.Disabled
 /-
 Line protocol driver: `<suite> <op> <args…>` per input line, one result line out.
 Compiled (`lean_exe modeldrv`); nothing imported here touches Mathlib.
@@ -14,6 +15,7 @@ def dispatch (line : String) : String :=
   | "totp" :: rest => Driver.Totp.handle rest
   | "apache" :: rest => Driver.Apache.handle rest
   | "digest" :: rest => Driver.Digest.handle rest
+  | "dis" :: rest => Driver.Disabled.handle rest
   | _ => Driver.bad
 
 partial def loop (h : IO.FS.Stream) (out : IO.FS.Stream) : IO Unit := do
